@@ -4,6 +4,11 @@
 set -e
 cd "$(dirname "$0")"
 ( cd lean && lake build PsVerif driver )
+# the committed generated files (regenerated from /repo by every check that owns one): pre-built so that a check on an unchanged tree finds
+# nothing to compile; a failure here is not fatal – the owning check rebuilds and reports
+( cd lean && lake build PsVerif.Generated.Alias PsVerif.Generated.Guards PsVerif.Generated.Effects PsVerif.Generated.Shapes PsVerif.Generated.Boxes \
+    PsVerif.Generated.NormCalc PsVerif.Generated.Ranking PsVerif.Generated.Selection PsVerif.Generated.Householder PsVerif.Generated.Recon \
+    PsVerif.Generated.Metrics PsVerif.Generated.Bases PsVerif.Generated.Classification ) || echo "setup: generated modules did not all build (the owning checks will report)"
 /venv/bin/python - <<'PY'
 import sys
 sys.path.insert(0, '.')
